@@ -1,0 +1,24 @@
+//go:build verif
+
+package req
+
+import (
+	"fmt"
+	"time"
+)
+
+// VerifC10Backoff evaluates the built-in capped exponential backoff interval function
+// (retry.go backoffInterval) for one (min, max, attempt) triple.  A panic inside the
+// function is contained and reported as text.
+func VerifC10Backoff(min, max time.Duration, attempt int) (d time.Duration, panicked string) {
+	defer func() {
+		if e := recover(); e != nil {
+			panicked = fmt.Sprint(e)
+		}
+	}()
+	return backoffInterval(min, max)(nil, attempt), ""
+}
+
+// VerifC10ErrUnreplayable is the error Request.Do returns up front for a retryable request
+// whose body cannot be replayed.
+var VerifC10ErrUnreplayable = errRetryableWithUnReplayableBody
